@@ -1869,8 +1869,11 @@ class QuadraticForm(Functional):
 
         .. math::
             (<x, Ax> + <b, x> + c)^* (x) =
-            <(x - b), A^-1 (x - b)> - c =
-            <x , A^-1 x> - <x, A^-* b> - <x, A^-1 b> + <b, A^-1 b> - c.
+            \frac{1}{4} <(x - b), A^-1 (x - b)> - c =
+            \frac{1}{4} (<x , A^-1 x> - <x, A^-* b> - <x, A^-1 b> +
+            <b, A^-1 b>) - c
+
+        for a self-adjoint, positive definite operator :math:`A`.
 
         If the quadratic part of the functional is zero it is instead given
         by a translated indicator function on zero, i.e., if
@@ -1900,16 +1903,17 @@ class QuadraticForm(Functional):
 
         if self.vector is None:
             # Handle trivial case separately
-            return QuadraticForm(operator=self.operator.inverse,
+            return QuadraticForm(operator=0.25 * self.operator.inverse,
                                  constant=-self.constant)
         else:
             # Compute the needed variables
             opinv = self.operator.inverse
-            vector = -opinv.adjoint(self.vector) - opinv(self.vector)
-            constant = self.vector.inner(opinv(self.vector)) - self.constant
+            vector = 0.25 * (-opinv.adjoint(self.vector) - opinv(self.vector))
+            constant = (0.25 * self.vector.inner(opinv(self.vector)) -
+                        self.constant)
 
             # Create new quadratic form
-            return QuadraticForm(operator=opinv,
+            return QuadraticForm(operator=0.25 * opinv,
                                  vector=vector,
                                  constant=constant)
 
